@@ -143,7 +143,7 @@ def owner(rej, group=None, evs=()):
 def run_client(pid, tier, rep, design_cfgs, asis, groups, nscen):
     # ---- design level: TLC on the bounded configs
     for cfg, actions, note in design_cfgs:
-        res = vlib.tlc("MC_Client", cfg, workers=8, timeout=1500, java_opts=["-Xmx12g"])
+        res = vlib.tlc("MC_Client", cfg, workers=8, timeout=3000, java_opts=["-Xmx12g"])
         rep.add_tlc(res, note)
         z = vlib.zero_coverage(res, actions)
         if z:
